@@ -445,9 +445,13 @@ def i_EXTU(ins, fmap):
 @__pc
 def i_MAC(ins, fmap):
     m, n = ins.operands
-    res = fmap(m ** n) + fmap(composer([MACL, MACH]))
+    prod = fmap(m ** n)
+    if prod.size < 64:
+        # MAC.W: the 32-bit product is accumulated in the 64-bit MACH:MACL
+        prod = prod.signextend(64)
+    res = prod + fmap(composer([MACL, MACH]))
     fmap[MACL] = res[0:32]
-    fmap[MACH] = res[0:32]
+    fmap[MACH] = res[32:64]
     postincr(ins, fmap)
 
 
